@@ -5,12 +5,23 @@ NOTES = ("Machine-checked proof in Coq 8.16 over executable Gallina models of th
          "(translator -> coq/gen). Oracles (math/big, encoding/*, x/net/html, node, strace) only search for failing inputs. "
          "fix: commits and open findings are listed in known_findings.json.")
 ENGINES = [
+    {"name": "Dispatch", "path": "coq/theories/Dispatch", "serves_properties": ["C15"],
+     "kind_free_text": "Gallina model of the registry (Add*/Match/MinifyMimetype) and of parse.Mediatype; harness/cmd/dispatchcheck"},
     {"name": "Json", "path": "coq/theories/Json", "serves_properties": ["C07", "C09", "C10"],
      "kind_free_text": "F2 Gallina model of json.Minify over parser events + JSON value spec; harness/cmd/jsoncheck"},
     {"name": "Num", "path": "coq/theories/Num", "serves_properties": ["C08", "C07", "C04", "C05"],
      "kind_free_text": "F2 Gallina model of minify.Number/Decimal (precision 0) + lexeme grammar and value spec; extracted to OCaml; harness/cmd/numcheck"},
 ]
 CHECKS = {
+    "C15": {
+        "engine": "Dispatch", "design_ref": "DESIGN.md section 4 / C15",
+        "technique": "Coq refinement proof over all registration histories + correspondence on generated histories",
+        "text": ("Theorems (Props/C15.v), for every registration history and mimetype: the registry model serves a call exactly as the documented rules say "
+                 "(last literal registration, else first-registered matching pattern, else ErrNotExist), Match agrees with Minify, re-registration replaces. "
+                 "Tie: the extracted model (registry + parse.Mediatype transliteration) is run on random histories and media type strings and must reproduce "
+                 "what Minify/Match/Bytes/String did with recording stubs; an independent Go reference of the rules is the search oracle."),
+        "note": ("Trusted: Coq kernel, extraction, driver, Go regexp (section parameter pmatch), the harness. minify.go is modelled, not verified."),
+    },
     "C07": {
         "engine": "Json", "design_ref": "DESIGN.md section 4 / C07",
         "technique": "Coq proof (induction over JSON values) on an extracted model of the separator state machine + correspondence on real parser events",
